@@ -1,6 +1,7 @@
 package lib
 
 import (
+	"bytes"
 	"errors"
 	"fmt"
 	"io"
@@ -65,7 +66,51 @@ func NewRegistry(o *Options) *minify.M {
 	m.AddRegexp(jsRe, o.JS)
 	m.AddRegexp(jsonRe, o.JSON)
 	m.AddRegexp(xmlRe, o.XML)
+	m.AddFunc(MTStream, streamStub)
+	m.AddFunc(MTFail, failStub)
 	return m
+}
+
+// Stub minifiers registered through the public API. streamStub is the only minifier that
+// produces output before its input has ended (all six real ones read everything first),
+// which is what makes the pipe interleavings of the wrappers non-trivial. failStub writes
+// half of its output and then fails.
+const (
+	MTStream = "text/x-stream"
+	MTFail   = "text/x-fail"
+)
+
+var ErrStubFailed = errors.New("stub minifier: failed after half of the output")
+
+func streamStub(_ *minify.M, w io.Writer, r io.Reader, _ map[string]string) error {
+	buf := make([]byte, 7)
+	for {
+		n, err := r.Read(buf)
+		if n > 0 {
+			if _, werr := w.Write(bytes.ToUpper(buf[:n])); werr != nil {
+				return werr
+			}
+		}
+		if err == io.EOF {
+			break
+		}
+		if err != nil {
+			return err
+		}
+	}
+	_, err := w.Write(nil)
+	return err
+}
+
+func failStub(_ *minify.M, w io.Writer, r io.Reader, _ map[string]string) error {
+	b, err := io.ReadAll(r)
+	if err != nil {
+		return err
+	}
+	if _, err := w.Write(b[:len(b)/2]); err != nil {
+		return err
+	}
+	return ErrStubFailed
 }
 
 // Op is one call of an entry point together with its doubles and its observations.
